@@ -632,7 +632,7 @@ pub fn generate(p: &GenParams, out: &mut Out) {
                             continue;
                         }
                         for code in 0..acc_count {
-                            if !sel.take() {
+                            if !(if n <= 1 { sel.take_all() } else { sel.take() }) {
                                 continue;
                             }
                             let h = mix(code, gi as u64 * 31 + ki as u64);
@@ -657,7 +657,7 @@ pub fn generate(p: &GenParams, out: &mut Out) {
                             let mut s = base_scn(format!("b{n}-{gi}-{ki}-{code}"), n, calls, reads, writes);
                             s.phases.push(Phase::Seq { fail_at: (h % (n as u64 + 2)) as usize });
                             s.phases.push(Phase::GraphInfo);
-                            if h % 7 == 0 {
+                            if h % 7 == 0 || n <= 1 {
                                 s.phases.push(Phase::Eq);
                             }
                             let r = run_scenario(&s, p.hooks, &ExploreOpts::default());
